@@ -235,3 +235,36 @@ Proof.
   destruct (segs path) as [|s r] eqn:Es; [reflexivity|].
   inversion Hnames as [|? ? (_ & _ & H3) _]; subst. rewrite H3. reflexivity.
 Qed.
+
+(* ------------------------------------------------------------------ one handler across a history of requests, its document
+   root replaced on the way (setDocumentRoot): the only state a FilesystemHandler carries from one request to the next *)
+Inductive fop := FSetRoot (r : bytes) | FRequest (path : bytes).
+
+(* every request is paired with the root in force when it is served *)
+Fixpoint fh_run (fs : list fentry) (root : bytes) (ops : list fop) : list (bytes * decision) :=
+  match ops with
+  | [] => []
+  | FSetRoot r :: t => fh_run fs r t
+  | FRequest p :: t => (root, fst (decide fs root p)) :: fh_run fs root t
+  end.
+
+Definition good_root (r : bytes) : Prop := names_only (clean (abs_segs r)) /\ clean (abs_segs r) <> [].
+Definition good_op (o : fop) : Prop := match o with FSetRoot r => good_root r | FRequest _ => True end.
+Definition inside (rd : bytes * decision) : Prop :=
+  match snd rd with
+  | ServeDir p | ServeFile p _ => seg_prefix (clean (abs_segs (fst rd))) p = true
+  | NotFound => True
+  end.
+
+(* whatever is served at any point of any history lies inside the root in force at that point - a root that was in
+   force earlier gives no access *)
+Theorem history_contained fs ops : forall root,
+  good_root root -> Forall good_op ops -> Forall inside (fh_run fs root ops).
+Proof.
+  induction ops as [|o ops IH]; intros root Hr Hall; cbn [fh_run]; [constructor|].
+  inversion Hall as [|? ? Ho Hrest]; subst.
+  destruct o as [r|p].
+  - apply IH; [exact Ho|exact Hrest].
+  - constructor; [|apply IH; assumption].
+    unfold inside. cbn [fst snd]. destruct Hr as [H1 H2]. exact (contained fs root p H1 H2).
+Qed.
